@@ -3,25 +3,27 @@ import SamVerif.Model.EnumLayout
 namespace SamVerif.EnumLayout
 
 /-- Invariant of the layout loop after the variants `done` have been processed. -/
-structure LInv (p : Ty → Bool) (done : List (List Ty)) (l : LState) : Prop where
+structure LInv (P : Nat → Prop) (done : List (List Ty)) (l : LState) : Prop where
   len : l.out.length = done.length
   i31 : ∀ (i : Nat), l.out[i]? = some .int31 → done[i]? = some []
   unb : ∀ (i : Nat) (t : Nat), l.out[i]? = some (.unboxed t) →
-    done[i]? = some [.ref t] ∧ p (.ref t) = true ∧ l.pending = some (i, .ref t) ∧
+    done[i]? = some [.ref t] ∧ P t ∧ l.pending = some (i, .ref t) ∧
     ∀ (j : Nat), j ≠ i → j < done.length → l.out[j]? = some .int31
   box : ∀ (i : Nat) (ts : List Ty), l.out[i]? = some (.boxed ts) →
     ∃ fs, done[i]? = some fs ∧ fs ≠ [] ∧ ts = .int :: fs
   pend : ∀ (i : Nat) (t : Ty), l.pending = some (i, t) → ∃ n, t = .ref n ∧ l.out[i]? = some (.unboxed n)
   perm : l.permit = true → ∀ (j : Nat), j < done.length → l.out[j]? = some .int31
 
-theorem linv_init (p : Ty → Bool) : LInv p [] {} := by
+theorem linv_init (P : Nat → Prop) : LInv P [] {} := by
   constructor <;> simp
 
-theorem linv_step (p : Ty → Bool) (done : List (List Ty)) (l : LState) (fs : List Ty)
-    (h : LInv p done l) :
-    LInv p (done ++ [fs]) (layoutStep l done.length fs (ansOf p fs)) := by
+/-- One loop iteration keeps the invariant, whatever answered the query, as long as a positive
+answer for a single field `ref n` establishes `P n`. -/
+theorem linv_step (P : Nat → Prop) (done : List (List Ty)) (l : LState) (fs : List Ty) (ans : Bool)
+    (h : LInv P done l) (hans : ∀ n, fs = [.ref n] → ans = true → P n) :
+    LInv P (done ++ [fs]) (layoutStep l done.length fs ans) := by
   obtain ⟨len, i31, unb, box, pend, perm⟩ := h
-  unfold layoutStep ansOf
+  unfold layoutStep
   split
   · -- empty variant
     rename_i he
@@ -46,10 +48,10 @@ theorem linv_step (p : Ty → Bool) (done : List (List Ty)) (l : LState) (fs : L
       simp only []
       split
       · rename_i n
-        by_cases hc : (l.permit && p (.ref n)) = true
+        by_cases hc : (l.permit && ans) = true
         · simp only [hc, if_true]
           have hpm : l.permit = true := by grind
-          have hpn : p (.ref n) = true := by grind
+          have hpn : P n := hans n rfl (by grind)
           have hall := perm hpm
           constructor
           · simp [len]
@@ -110,20 +112,28 @@ theorem linv_step (p : Ty → Bool) (done : List (List Ty)) (l : LState) (fs : L
         · intro hp j hj; grind
 
 theorem layoutLoop_inv (p : Ty → Bool) (vs : List (List Ty)) :
-    ∀ (done : List (List Ty)) (l : LState), LInv p done l →
-      LInv p (done ++ vs) (layoutLoop p vs done.length l) := by
+    ∀ (done : List (List Ty)) (l : LState), LInv (fun t => p (.ref t) = true) done l →
+      LInv (fun t => p (.ref t) = true) (done ++ vs) (layoutLoop p vs done.length l) := by
   induction vs with
   | nil => intro done l h; simpa [layoutLoop] using h
   | cons fs rest ih =>
     intro done l h
-    have h1 := linv_step p done l fs h
+    have h1 := linv_step _ done l fs (ansOf p fs) h (by
+      intro n hf ha; subst hf; simpa [ansOf] using ha)
     have h2 := ih (done ++ [fs]) _ h1
     simpa [layoutLoop, List.append_assoc] using h2
 
 /-- What the loop guarantees about its result. -/
 theorem layoutOf_inv (p : Ty → Bool) (variants : List (List Ty)) :
-    LInv p variants (layoutLoop p variants 0 {}) := by
-  have := layoutLoop_inv p variants [] {} (linv_init p)
+    LInv (fun t => p (.ref t) = true) variants (layoutLoop p variants 0 {}) := by
+  have := layoutLoop_inv p variants [] {} (linv_init _)
   simpa using this
+
+theorem LInv.mono {P Q : Nat → Prop} {done : List (List Ty)} {l : LState}
+    (h : LInv P done l) (hpq : ∀ t, P t → Q t) : LInv Q done l := by
+  obtain ⟨len, i31, unb, box, pend, perm⟩ := h
+  exact ⟨len, i31, fun i t hi => by
+    obtain ⟨a, b, c, d⟩ := unb i t hi
+    exact ⟨a, hpq t b, c, d⟩, box, pend, perm⟩
 
 end SamVerif.EnumLayout
